@@ -229,6 +229,8 @@ def run(ctx):
     c16._axis_tables(ctx, rule="R17.7", only=lambda ci: "Phasor" in ci.name)
     c16._closed_phasor_net(ctx, rule="R17.8", nfreq=1)
     c16._closed_phasor_net(ctx, rule="R17.8", nfreq=2)
+    if ctx.tier == "thorough":
+        c16._closed_phasor_net(ctx, rule="R17.8", nfreq=3)
     ctx.require_count("C17", len(ctx.obligations), 80)
 
 
